@@ -135,8 +135,8 @@ def export_units(files):
     for f in files:
         if f not in db:
             raise AnalysisBroken('unit not in compile database: ' + f)
-        k = hashlib.sha256((hd + '\0' + ' '.join(db[f]).replace(sd, '$S') + '\0').encode()
-                           + open(f, 'rb').read()).hexdigest()
+        k = hashlib.sha256((hd + '\0' + ' '.join(a.replace(sd, '$S').replace(REPO, '$R') for a in db[f])
+                            + '\0' + os.path.relpath(f, REPO) + '\0').encode() + open(f, 'rb').read()).hexdigest()
         keys[f] = os.path.join(CACHE, k + '.json')
         if not os.path.exists(keys[f]):
             todo.append(f)
@@ -162,7 +162,7 @@ def export_units(files):
             if not os.path.exists(o):
                 msgs = '\n'.join(r.stdout[-3000:] for r in res if f in r.stdout or r.returncode)
                 raise AnalysisBroken('d0ast produced nothing for %s\n%s' % (f, msgs))
-            txt = open(o).read().replace(os.path.join(sd, 'cfg'), '$BUILD')
+            txt = open(o).read().replace(os.path.join(sd, 'cfg'), '$BUILD').replace(REPO + '/', '$REPO/')
             j = json.loads(txt)
             if j.get('errors'):
                 msgs = '\n'.join(r.stdout[-3000:] for r in res if r.stdout.strip())
@@ -173,7 +173,7 @@ def export_units(files):
             os.remove(o)
     out = {}
     for f in files:
-        out[f] = json.load(open(keys[f]))
+        out[f] = json.loads(open(keys[f]).read().replace('$REPO/', REPO + '/'))
     return out
 
 
